@@ -947,6 +947,22 @@ fn gen_client(repo: &Path, g: &mut Gen) -> R<()> {
     let recurses = calls_self_method(&pn.block, "poll_next");
     let mut s = String::new();
     let _ = writeln!(s, "/-- {sub_rel}: does `Subscriber::poll_next` call itself (one stack frame per frame that yields nothing)? -/\ndef subscriberPollNextRecurses : Bool := {recurses}");
-    g.emit("Client", &[sub_rel], &s);
+    // requestor: is the hand-over of the request to the transport (`….send(frame)`) inside the future that
+    // `tokio::time::timeout(self.request_timeout, …)` bounds, or before it?
+    let rq_rel = "client/src/streams/request_reply/requestor.rs";
+    let rq = Src::load(repo, rq_rel)?;
+    let req = method_body(&rq, "request", 0).ok_or_else(|| Shape(format!("{rq_rel}: fn request not found")))?;
+    let rt = quote::quote!(#req).to_string();
+    let at = rt.find("timeout (self . request_timeout ,").ok_or_else(|| Shape(format!("{rq_rel}: request(): no `timeout(self.request_timeout, …)`")))?;
+    let mut depth = 0i32;
+    let mut end = rt.len();
+    for (i, ch) in rt[at..].char_indices() {
+        match ch { '(' => depth += 1, ')' => { depth -= 1; if depth == 0 { end = at + i; break; } } _ => {} }
+    }
+    let bounded = &rt[at..end];
+    let covers = bounded.contains(". send (");
+    if !covers && !rt[..at].contains(". send (") { return shape(rq_rel, "request(): no `.send(…)` before or inside the timeout"); }
+    let _ = writeln!(s, "/-- {rq_rel}: does the per-request timeout also bound handing the request to the transport (`send(frame)`)? -/\ndef requestTimeoutCoversSend : Bool := {covers}");
+    g.emit("Client", &[sub_rel, rq_rel], &s);
     Ok(())
 }
